@@ -5,7 +5,10 @@ Every op line's output is `<result> ;; <dump>` where `<dump>` is the canonical r
 the whole state after the op (balances incl. the holder `H`, opt-ins, auto-responses,
 records with both sender lists, suffix index).  The verdict parses the *implementation's*
 dump into a `State` and evaluates the conclusions of the C07 theorems on it (clause names
-below), relative to the implementation's previous dump.
+below), relative to the implementation's previous dump.  The clauses about WHO may be paid or
+credited do not trust the store's own bookkeeping (accepted lists, auto-response entries, opt-in
+flags): they are evaluated on `Hist.view`, the previous dump read through the history of the
+receiver's successful messages that the driver rebuilds op by op (`Hist.step`).
 -/
 import PvModel.QuarSpec
 import PvModel.Util
@@ -144,8 +147,11 @@ def stateChecks (tainted : Bool) (invOk : Bool) (c : State) (ds : List Denom) : 
     (noneFullyAcceptedB c, "fully_accepted_record_kept"),
     (indexOKB c, "index_incomplete") ]
 
-/-- `check prev op ok? released cur` -/
-def check (accts : List Addr) (tainted invOk : Bool) (p : State) (op : Op) (ok : Bool) (released : Coins) (c : State) : String :=
+/-- `check prev prevAsTheHistoryReadsIt op ok? released cur`: `p` is the implementation's previous
+dump, `pv` the same state with the receiver's choices (opt-in, auto-responses, who is accepted on
+which record) taken from the history of successful messages (`Hist.view`) instead of from the
+store — the clauses about WHO may be paid / credited are evaluated on `pv`. -/
+def check (accts : List Addr) (tainted invOk : Bool) (p pv : State) (op : Op) (ok : Bool) (released : Coins) (c : State) : String :=
   let ds := allDenoms p c
   let h := p.holder
   if !ok then
@@ -168,25 +174,31 @@ def check (accts : List Addr) (tainted invOk : Bool) (p : State) (op : Op) (ok :
         (sameRecCoins p c ds, "moved_funds:record") ]
     | .send _ _ _ | .msend _ _ | .iosend _ _ =>
       let xs := op.xfers
+      -- who is quarantined for whom is read off the HISTORY (`pv`): opted in and not set to auto-accept
+      -- by an UpdateAutoResponses / permanent accept seen so far
       [ (accts.all fun a => ds.all fun d =>
-            !(isQuarantinedAddr p a && a ≠ h) ||
-              decide (Ledger.bal c.bank a d - Ledger.bal p.bank a d ≤ expDelta p xs a d), "credited_before_accept"),
-        (ds.all fun d => decide (expDelta p xs h d ≤ Ledger.bal c.bank h d - Ledger.bal p.bank h d), "quarantined_not_held"),
+            !(isQuarantinedAddr pv a && a ≠ h) ||
+              decide (Ledger.bal c.bank a d - Ledger.bal p.bank a d ≤ expDelta pv xs a d), "credited_before_accept"),
+        (ds.all fun d => decide (expDelta pv xs h d ≤ Ledger.bal c.bank h d - Ledger.bal p.bank h d), "quarantined_not_held"),
         (accts.all fun a => ds.all fun d =>
-            Ledger.bal c.bank a d - Ledger.bal p.bank a d = expDelta p xs a d, "direct_delivery_wrong"),
-        (ds.all fun d => outstanding c d - outstanding p d = expQuarantined p xs d, "record_total_wrong"),
+            Ledger.bal c.bank a d - Ledger.bal p.bank a d = expDelta pv xs a d, "direct_delivery_wrong"),
+        (ds.all fun d => outstanding c d - outstanding p d = expQuarantined pv xs d, "record_total_wrong"),
         (xs.all fun x => ds.all fun d =>
             Coins.amountOf (coinsAt c x.to [x.from_]) d - Coins.amountOf (coinsAt p x.to [x.from_]) d
-              = expRecord p xs x.to x.from_ d, "record_not_topped_up") ]
+              = expRecord pv xs x.to x.from_ d, "record_not_topped_up") ]
     | .accept to froms _ =>
-      [ (p.recs.all fun e => !(e.1.1 = to && completes froms e.2) || (kvGet c.recs e.1).isNone, "released_record_remains"),
-        (p.recs.all fun e => (e.1.1 = to && completes froms e.2) ||
+      -- which records this accept completes is read off the HISTORY (`pv`): every sender of the record
+      -- is named now or was accepted earlier and not declined since
+      [ (pv.recs.all fun e => !(e.1.1 = to) || completes froms e.2 || (kvGet c.recs e.1).isSome,
+          "paid_before_every_sender_accepted"),
+        (pv.recs.all fun e => !(e.1.1 = to && completes froms e.2) || (kvGet c.recs e.1).isNone, "released_record_remains"),
+        (pv.recs.all fun e => (e.1.1 = to && completes froms e.2) ||
             ds.all fun d => Coins.amountOf (coinsAt c e.1.1 e.1.2) d = Coins.amountOf e.2.coins d, "unreleased_record_changed"),
         (c.recs.all fun e => (kvGet p.recs e.1).isSome, "record_appeared"),
-        (ds.all fun d => Coins.amountOf released d = expReleased p.recs to froms d, "released_not_in_full"),
+        (ds.all fun d => Coins.amountOf released d = expReleased pv.recs to froms d, "released_not_in_full"),
         (accts.all fun a => ds.all fun d =>
             Ledger.bal c.bank a d - Ledger.bal p.bank a d =
-              (if a = to then expReleased p.recs to froms d else 0) - (if a = h then expReleased p.recs to froms d else 0),
+              (if a = to then expReleased pv.recs to froms d else 0) - (if a = h then expReleased pv.recs to froms d else 0),
           "release_payment_wrong") ]
     | .bsend f t amt =>
       [ (accts.all fun a => ds.all fun d =>
@@ -209,6 +221,8 @@ structure DState where
   accts : List Addr
   model : State
   impl : Option State
+  /-- the receiver's choices according to the successful messages of this history so far -/
+  hist : Hist := Hist.empty
   /-- an operation signed by the holder has succeeded in this history (outside the property's
   quantifier; from then on only the clauses that do not presuppose it are evaluated) -/
   tainted : Bool := false
@@ -271,7 +285,8 @@ def stepD (σ : DState) (opLine : String) (impl : Option String) : DState × Str
       let bank : Ledger := bals.flatMap fun (a, c) => Ledger.entries a c
       let m := init holderName restrictedDenoms xferAddrs bank
       let implSt := impl.bind fun i => (parseDump? holderName restrictedDenoms xferAddrs (splitOut i).2).map (·.st)
-      ({ accts, model := m, impl := implSt, tainted := false }, s!"ok ;; {dump accts m}", "-")
+      ({ accts, model := m, impl := implSt, hist := (implSt.map Hist.ofState).getD Hist.empty, tainted := false },
+        s!"ok ;; {dump accts m}", "-")
   | _ =>
   match pureOp ws with
   | some out => (σ, out, match impl with | some i => checkPure ws i | none => "-")
@@ -288,9 +303,10 @@ def stepD (σ : DState) (opLine : String) (impl : Option String) : DState × Str
       match parseDump? holderName restrictedDenoms xferAddrs idump, σ.impl with
       | some d, some p =>
         -- correspondence only: genesis export/import is outside C07's quantifier (it belongs to C18)
+        -- (a genesis import starts a new history from what it imported)
         let _ := p; let _ := ires
-        ({ σ with model := m', impl := some d.st }, out, "-")
-      | some d, none => ({ σ with model := m', impl := some d.st }, out, "-")
+        ({ σ with model := m', impl := some d.st, hist := Hist.ofState d.st }, out, "-")
+      | some d, none => ({ σ with model := m', impl := some d.st, hist := Hist.ofState d.st }, out, "-")
       | none, _ => ({ σ with model := m' }, out, "fail:unparsed_dump")
   else
   match parseOp? ws with
@@ -314,8 +330,10 @@ def stepD (σ : DState) (opLine : String) (impl : Option String) : DState × Str
           | ["ok", c] => (parseCoins? c).getD []
           | _ => []
         let tainted := σ.tainted || (ok && !op.holderNeverSigns holderName)
-        ({ σ with model := m', impl := some d.st, tainted }, out, check σ.accts tainted d.invOk p op ok rel d.st)
-      | some d, none => ({ σ with model := m', impl := some d.st }, out, "-")
+        let hist := if ok then σ.hist.step op (d.st.recs.map (·.1)) else σ.hist
+        ({ σ with model := m', impl := some d.st, hist, tainted }, out,
+          check σ.accts tainted d.invOk p (σ.hist.view p) op ok rel d.st)
+      | some d, none => ({ σ with model := m', impl := some d.st, hist := Hist.ofState d.st }, out, "-")
       | none, _ => ({ σ with model := m' }, out, "fail:unparsed_dump")
 
 def driver : Driver where
